@@ -497,6 +497,103 @@ func c01Cases(r *core.Run, prop string) []XZWCase {
 			}
 		}
 	}
+	// (g) configuration product: DictCap x BufSize x BlockSize x check x matcher completely, on
+	// three (thorough: nine) medium shapes; and every lc/lp/pb set crossed with every value of
+	// every other dimension (pairs), on two shapes one of which forces raw chunks
+	gshapes := [][]Seg{
+		{{K: "T", Seed: 21, N: 3000}, {K: "K", N: 2000}, {K: "Z", N: 300}, {K: "L", Lit: []byte{0, 1, 2, 3, 0xff}}},
+		{{K: "T", Seed: 22, N: 500}, {K: "R", Seed: 22, N: 66000}, {K: "T", Seed: 23, N: 800}, {K: "K", N: 700}},
+		{{K: "L", Lit: []byte{0}}, {K: "A", B: 0, N: 5000}, {K: "T", Seed: 24, N: 5000}, {K: "K", N: 4097}},
+	}
+	if th {
+		gshapes = append(gshapes,
+			[]Seg{},
+			[]Seg{{K: "L", Lit: []byte("a")}},
+			[]Seg{{K: "R", Seed: 25, N: 4095}, {K: "K", N: 4095}, {K: "K", N: 8190}},
+			[]Seg{{K: "T", Seed: 26, N: 60000}, {K: "Z", N: 4096}, {K: "K", N: 9000}},
+			[]Seg{{K: "R", Seed: 27, N: 140000}, {K: "T", Seed: 27, N: 3000}},
+			[]Seg{{K: "A", B: 'z', N: 273}, {K: "L", Lit: []byte("y")}, {K: "A", B: 'z', N: 274}, {K: "R", Seed: 28, N: 30}, {K: "K", N: 600}},
+		)
+	}
+	gdict := []int{4096, 4097, 32768, 65536, 1 << 20, 0}
+	gbuf := []int{273, 274, 4096, 1 << 16}
+	gblk := []int64{0, 1, 7, 4096, 65536, -1, -2, -3}
+	gchk := []int{0, 1, 4, 10, -1}
+	mkcfg := func(dc, bs int, blk int64, ck, m int, ln int64) (XZCfg, bool) {
+		b := blk
+		switch blk {
+		case -1:
+			b = ln - 1
+		case -2:
+			b = ln
+		case -3:
+			b = ln + 1
+		}
+		if (blk < 0 && b <= 0) || (b == 1 && ln > 300) || (b == 7 && ln > 6000) {
+			return XZCfg{}, false
+		}
+		if m == 1 && (dc == 0 || dc > 65536) {
+			return XZCfg{}, false // BinaryTree cost bound
+		}
+		c := XZCfg{DictCap: dc, BufSize: bs, BlockSize: b, Matcher: m}
+		if ck >= 0 {
+			c.Check = byte(ck)
+		} else {
+			c.NoCheck = true
+		}
+		return c, true
+	}
+	for _, sh := range gshapes {
+		ln := int64(len(buildShape(sh)))
+		for _, dc := range gdict {
+			for _, bs := range gbuf {
+				for _, blk := range gblk {
+					for _, ck := range gchk {
+						for m := 0; m < 2; m++ {
+							if c, ok := mkcfg(dc, bs, blk, ck, m, ln); ok {
+								add(XZWCase{Cfg: c, Shape: sh})
+							}
+						}
+					}
+				}
+			}
+		}
+	}
+	for _, pr := range allProps2() {
+		for _, sh := range gshapes[:2] {
+			ln := int64(len(buildShape(sh)))
+			with := func(c XZCfg, ok bool) {
+				if ok {
+					c.Props, c.LC, c.LP, c.PB = true, pr[0], pr[1], pr[2]
+					add(XZWCase{Cfg: c, Shape: sh})
+				}
+			}
+			for _, dc := range gdict {
+				with(mkcfg(dc, 0, 0, 0, 0, ln))
+			}
+			for _, bs := range gbuf {
+				with(mkcfg(65536, bs, 0, 0, 0, ln))
+			}
+			for _, blk := range gblk {
+				with(mkcfg(65536, 0, blk, 0, 0, ln))
+			}
+			for _, ck := range gchk {
+				with(mkcfg(65536, 0, 0, ck, 0, ln))
+			}
+			with(mkcfg(65536, 0, 0, 0, 1, ln))
+			with(mkcfg(4096, 273, 4096, 1, 1, ln))
+		}
+	}
+	// (h) runs of one byte whose length sits around one and two maximal matches (273): the
+	// operation pairs literal -> match(273) -> short rep / rep0 only arise there
+	for _, n := range []int{270, 271, 272, 273, 274, 275, 276, 277, 280, 544, 545, 546, 547, 548, 549, 550, 819, 820, 821} {
+		for _, b := range []byte{0, 'a'} {
+			for m := 0; m < 2; m++ {
+				add(XZWCase{Cfg: XZCfg{DictCap: 4096, Matcher: m}, Shape: []Seg{{K: "A", B: b, N: n}, {K: "L", Lit: []byte("x")}, tail}})
+				add(XZWCase{Cfg: XZCfg{DictCap: 4096, Matcher: m, Props: true, LC: 0, LP: 2, PB: 0}, Shape: []Seg{{K: "L", Lit: []byte("q")}, {K: "A", B: b, N: n}, {K: "L", Lit: []byte("xy")}, {K: "A", B: b, N: 5}}})
+			}
+		}
+	}
 	if prop == "C02" {
 		return cases
 	}
